@@ -262,3 +262,56 @@ contract('gambatools.pda', 'PDA._check_validity', {'self': 'PDA'}, returns='None
                         'all(implies((q1, v1) in doneT, %s) for q1 in atoms() for v1 in atoms())' % _PDA_TGT_OK]}},
          theories=['pda'], props=['C17'],
          note='the class invariant of PDA: the validity check fails exactly when pda_wf is false (pda_wf becomes the constructor obligation for PDA objects)')
+
+
+# ------------------------------------------------------------------------------------------------ PDA descriptions (labels "a,uv": characters 0, 2, 3)
+MP = 'gambatools.pda_algorithms'
+_LEN4 = 'any(0 <= t and t < %s and strlen(%s[t][1]) != 4 for t in ints())' % (_N, _T)
+_SHORT = lambda k: 'any(0 <= t and t < %s and strlen(%s[t][1]) <= %d for t in ints())' % (_N, _T, k)
+contract(MP, 'PDABuilder.used_input_symbols', {'self': 'Builder', 'epsilon': 'Atom'}, returns='Set[Atom]',
+         raises=_SHORT(0), ensures=['all((x in result) == (x in tr_chars(%s, %s, 0) and x != epsilon) for x in atoms())' % (_T, _N)], theories=TH, props=['C17'],
+         note='the first characters of the labels, without the epsilon symbol (IndexError exactly when a label is empty)')
+contract(MP, 'PDABuilder.used_stack_symbols', {'self': 'Builder', 'epsilon': 'Atom'}, returns='Set[Atom]', types={'result': 'Set[Atom]'},
+         raises=_SHORT(3),
+         ensures=['all((x in retval) == ((x in tr_chars(%s, %s, 2) or x in tr_chars(%s, %s, 3)) and x != epsilon) for x in atoms())' % (_T, _N, _T, _N)],      # retval: the function has a local called `result`
+         loops={1: {'ghost': 'idx', 'invariant': ['A == self.A', 'all((x in result) == (x in tr_chars(%s, idx, 2) or x in tr_chars(%s, idx, 3)) for x in atoms())' % (_T, _T),
+                                                  'all(implies(0 <= t and t < idx, strlen(%s[t][1]) > 3) for t in ints())' % _T],
+                    'after': ['all((x in result) == (x in tr_chars(%s, %s, 2) or x in tr_chars(%s, %s, 3)) for x in atoms())' % (_T, _N, _T, _N)]}},
+         theories=TH, props=['C17'], note='the third and fourth characters of the labels, without the epsilon symbol (IndexError exactly when a label has fewer than four characters)')
+_SKEY = "'stack_symbols'"
+_P_IN = '(%%s in tr_chars(%s, %s, 0) and %%s != %s)' % (_T, _N, _EPS)
+_P_ST = '((%%s in tr_chars(%s, %s, 2) or %%s in tr_chars(%s, %s, 3)) and %%s != %s)' % (_T, _N, _T, _N, _EPS)
+def _pinput(x): return "((%s in self.A.items and %s in list_elems(self.A.items[%s])) or (%s not in self.A.items and %s))" % (_KEY, x, _KEY, _KEY, _P_IN % (x, x))
+def _pstack(x): return "((%s in self.A.items and %s in list_elems(self.A.items[%s])) or (%s not in self.A.items and %s))" % (_SKEY, x, _SKEY, _SKEY, _P_ST % (x, x, x))
+_PDA_RAISES = [
+    'any(%s and not %s for x in atoms())' % (used('self.A'), _decl('x')),                                             # 0 a used state is not declared
+    'any(%s and not re_fullmatch(self.state_regex, x) for x in atoms())' % _decl('x'),                                # 1 a state name is malformed
+    NOT_ONE_INITIAL % 'self.A',                                                                                       # 2 not exactly one initial state
+    "(%s in self.A.items and len(self.A.items[%s]) != 1)" % (_EKEY, _EKEY),                                           # 3 epsilon declared with no or several values
+    _LEN4,                                                                                                            # 4 a label does not have four characters
+    "(%s in self.A.items and any(%s and x not in list_elems(self.A.items[%s]) for x in atoms()))" % (_KEY, _P_IN % ('x', 'x'), _KEY),      # 5 a used input symbol is not declared
+    "(%s in self.A.items and any(%s and x not in list_elems(self.A.items[%s]) for x in atoms()))" % (_SKEY, _P_ST % ('x', 'x', 'x'), _SKEY),  # 6 a used stack symbol is not declared
+    'any(%s and not re_fullmatch(self.symbol_regex, x) for x in atoms())' % _pinput('x'),                             # 7 an input symbol is malformed
+    "(%s in self.A.items and %s in list_elems(self.A.items[%s]))" % (_KEY, _EPS, _KEY),                               # 8 epsilon declared as an input symbol
+    "(%s in self.A.items and %s in list_elems(self.A.items[%s]))" % (_SKEY, _EPS, _SKEY),                             # 9 epsilon declared as a stack symbol
+]
+_PTR = 'any(%s[t][0] == p1 and char_at(%s[t][1], 0) == a1 and char_at(%s[t][1], 2) == u1 and %s[t][2] == q1 and char_at(%s[t][1], 3) == v1 for t in range(%s))'
+_PQ = 'for p1 in atoms() for a1 in atoms() for u1 in atoms() for q1 in atoms() for v1 in atoms()'
+contract(MP, 'PDABuilder.build', {'self': 'Builder'}, returns='PDA', modifies=['self'], type_invariants=FIN,
+         raises=_PDA_RAISES,
+         raise_witness={'AutomatonBuilder__check_states_are_declared': 0, 'AutomatonBuilder__check_state_labels': 1, 'AutomatonBuilder__check_one_initial_state': 2,
+                        'AutomatonBuilder_parse_symbol': 3, 'PDABuilder_used_input_symbols': 4, 'PDABuilder_used_stack_symbols': 4, 'unpack': 4,
+                        'AutomatonBuilder__check_symbols': 7, 'ctor#1': None, 'ctor#2': 8, 'ctor#3': 9, 'ctor#4': None, 'ctor#5': None, 'ctor#6': None},
+         ensures=['all((x in result.Q) == %s for x in atoms())' % _decl('x').replace('self.A', 'old(self.A)'),
+                  'all((x in result.Sigma) == %s for x in atoms())' % _pinput('x').replace('self.A', 'old(self.A)'),
+                  'all((x in result.Gamma) == %s for x in atoms())' % _pstack('x').replace('self.A', 'old(self.A)'),
+                  'result.epsilon == %s' % _OEPS, 'result.q0 in old(self.A.initial_states)', 'result.F == old(self.A.final_states)',
+                  'all(((q1, v1) in lookup(result.delta, (p1, a1, u1))) == %s %s)' % (_PTR % ((_OT,) * 5 + ('len(%s)' % _OT,)), _PQ)] + _KEEPS,
+         types={'delta': 'Map[(Atom,Atom,Atom),Set[(Atom,Atom)],default=set]'},
+         loops={1: {'ghost': 'idx', 'invariant': ['all(implies((p1, a1, u1) in delta, any(%s[t][0] == p1 and char_at(%s[t][1], 0) == a1 and char_at(%s[t][1], 2) == u1 for t in range(idx))) for p1 in atoms() for a1 in atoms() for u1 in atoms())' % ((_T,) * 3),
+                                                  'all(((q1, v1) in lookup(delta, (p1, a1, u1))) == %s %s)' % (_PTR % ((_T,) * 5 + ('idx',)), _PQ),
+                                                  'all(implies(0 <= t and t < idx, strlen(%s[t][1]) == 4) for t in ints())' % _T],
+                    'after': ['all(implies((p1, a1, u1) in delta and (q1, v1) in delta[(p1, a1, u1)], (q1, v1) in lookup(delta, (p1, a1, u1))) %s)' % _PQ]}},
+         theories=TH, props=['C17'],
+         note='a tokenised PDA description (labels "a,uv") is turned into exactly the automaton that was written; an exception is raised exactly when a used state is undeclared, a name is malformed, the number of initial '
+              'states is not one, the epsilon declaration has no or several values, a label does not have four characters, a used input / stack symbol is undeclared, or the epsilon symbol is declared as an input or stack symbol')
